@@ -243,14 +243,12 @@ def C16():
              symbolic=["i", "j", "S[256]", "probe index"], functions=["nla::rc4::Rc4::next"], timeout=900, mem_gb=8),
         Kani("c16_rc4_process_carries_state", "Rc4::process: output = input xor keystream; processing a then b equals processing a||b from any state (cipher state carries over between messages)", bounds={"bytes": 3, "state": "arbitrary"},
              symbolic=["i", "j", "S[256]", "3 data bytes"], functions=["nla::rc4::Rc4::process", "nla::rc4::Rc4::next"], timeout=1800, mem_gb=10, tiers=("thorough",)),
-        Kani("c16_g6_unwrap_total_p1", "GATE G6 (retry): gss_unwrapex on every 17-byte token with HMAC and RC4 replaced by oracles: value or error, no panic", bounds={"token_bytes": 17}, symbolic=["token", "oracle outputs"],
-             functions=["nla::ntlm::NTLMv2SecurityInterface::gss_unwrapex"], timeout=2400, mem_gb=30, tiers=("g6",)),
         MirJob("c16_mir_keys", "sign_key/seal_key use the client-to-server constants for the client role and server-to-client for the peer; build_security_interface wires encrypt=client sealing key, decrypt=server sealing key, signing=client signing key, verify=server signing key", mirjobs.ntlm_keys),
         MirJob("c16_mir_unwrap_order", "gss_unwrapex: RC4-decrypts the payload then the checksum with the decrypt cipher (keystream order), computes HMAC-MD5(verify_key, seq_num || plaintext), compares the first 8 bytes, returns the plaintext only on the match edge and Err(InvalidChecksum) on the mismatch edge",
                mirjobs.unwrap_order),
         MirJob("c16_mir_wrap_order", "gss_wrapex/mac: encrypts the data, then the first 8 bytes of HMAC-MD5(signing_key, seq_num || data) with the same cipher, emits version 1 / checksum / seq_num followed by the ciphertext and increments seq_num once", mirjobs.wrap_order),
     ]
-    return Prop("C16", [("nla/rc4.rs", "rc4.rs"), ("nla/ntlm.rs", "ntlm.rs")], jobs, lowerings=["L2"],
+    return Prop("C16", [("nla/rc4.rs", "rc4.rs")], jobs,
                 assumptions=[S6, DEV, "RC4 key schedule (Rc4::new) is not executed: states are arbitrary, which over-approximates the reachable ones",
                              "md5 / hmac-md5 crates are third-party (pinned by the repo's vector tests)"],
                 text="RC4 keystream generation decided for every cipher state by bounded model checking of the real Rc4::next/process; key derivation roles and the order of operations of sealing/unsealing (which cipher, which key, what is compared, which edge returns plaintext) decided on the MIR of sign_key/seal_key/build_security_interface/gss_unwrapex/gss_wrapex/mac.",
@@ -275,6 +273,34 @@ def C17():
                 technique="MIR->SMT symbolic execution (z3) of cssp_connect / Connector::connect / x224 connect / rdp_infos; Kani for the request bytes",
                 design_ref="DESIGN.md §4 C17",
                 outside=["whole-handshake secrecy", "NTLM token contents"])
+
+
+def C04():
+    jobs = []
+    for h, claim, q, mods in (
+            ("c14_h14a_header_all_sizes", "TPKT header: 03 00 len16 with len = payload + 4 for every payload size <= 65531", True, None),
+            ("c04_x224_header", "X.224 data header is 02 F0 80", True, None),
+            ("c17_neg_req_bytes", "RDP_NEG_REQ: 01 flags 08 00 protocols(LE) for every flag byte and mask", True, None),
+            ("c04_gcc_block_header", "GCC user-data block header: type LE, length = body + 4 for every body length <= 65531", True, None),
+            ("c04_gcc_security_data", "TS_UD_CS_SEC: 8 bytes, methods 40|56|128, ext 0", False, None),
+            ("c04_mcs_requests", "attach-user, channel-join (every user id >= 1001 and channel id) and erect-domain requests byte-exact", True, None),
+            ("c18_per_length_roundtrip", "PER length determinant for every length <= 0x7fff (used by the MCS send-data-request header)", False, None),
+            ("c04_pointer_event", "TS_POINTER_EVENT body for every flags/x/y: 6 bytes, exact values", True, None),
+            ("c04_keyboard_event", "TS_KEYBOARD_EVENT body for every flags/scancode", True, None),
+            ("c04_finalize_pdus", "synchronize / control(request) / font-list PDU bodies byte-exact for every target user", True, None)):
+        jobs.append(Kani(h, claim, tiers=("quick", "thorough") if q else ("thorough",), bounds={"depth": "one component/trame"}, symbolic=["all numeric fields", "payload bytes"],
+                         functions=["constructor + Message::write"], timeout=1500, mem_gb=12))
+    jobs.append(MirJob("c04_mir_core_data_name", "gcc::client_core_data: the clientName computation has no reachable panicking slice/index/unwrap and no failing arithmetic for any name (length symbolic)",
+                       mirjobs.multi(mirjobs.panic_sites([(r"^client_core_data$", [(r"Option::<ClientData>::unwrap_or$", 1, "default parameters")])], {r"^client_core_data$": mirjobs.CORE_DATA_NATIVE}),
+                                     mirjobs.fn_asserts(r"^client_core_data$", "client name length", loop_bound=0))))
+    return Prop("C04", [("core/per.rs", "per.rs"), ("core/tpkt.rs", "tpkt.rs"), ("core/x224.rs", "x224.rs"), ("core/mcs.rs", "mcs.rs"), ("core/gcc.rs", "gcc.rs"), ("core/global.rs", "global.rs")], jobs, lowerings=["L2"],
+                assumptions=[S1, S6, DEV, "L2 light error payloads", "the strict parser is the set of relations asserted in the harness (written from MS-RDPBCGR / T.125 / X.224), applied to the bytes the real Message::write produced"], stubs=[S1],
+                text="Byte-exact well-formedness of every emitter that is one component/trame deep, for all values of its numeric fields and symbolic payload bytes: each length/count field equals what it describes, fixed fields have their size and offset, the client name is 32 bytes NUL terminated for arbitrary Unicode scalars.",
+                note="NOT covered (CBMC does not finish on them): emitters that nest containers or call to_vec on a container - capability sets inside confirm-active, client network data, connect-initial (BER), Client Info (extended info component), input PDU framing through MCS/X.224/TPKT, NTLM and CredSSP tokens. Names longer than 17 scalars.",
+                technique="Kani/CBMC bounded model checking (SAT) of one-level emitters against spec relations",
+                design_ref="DESIGN.md §4 C04",
+                outside=["nested emitters (confirm-active, connect-initial, Client Info, input PDU framing)", "NTLM / CredSSP tokens", "capability set bodies",
+                         "share control / share data headers, TS_INPUT_EVENT and the full TS_UD_CS_CORE bytes: harnesses were written (harness/global.rs, gcc.rs) but CBMC times out (25 min) or exceeds 12 GB on components with DynOption closures or more than ~4 fields"])
 
 
 def C05():
@@ -362,9 +388,9 @@ def C18():
                 outside=["records with size-dependent or skippable fields (Component::read/write with MessageOption::Size/SkipField: CBMC does not finish)", "nested containers", "BER/DER (yasna) structures", "GCC conference blocks", "Version::from table (known finding D14 is checked by c18_mir_version_table)"])
 
 
-PROPS = {"C01": C01, "C02": C02, "C05": C05, "C06": C06, "C07": C07, "C08": C08, "C09": C09, "C12": C12, "C13": C13, "C14": C14, "C16": C16, "C17": C17, "C18": C18, "C19": C19}
+PROPS = {"C01": C01, "C02": C02, "C04": C04, "C05": C05, "C06": C06, "C07": C07, "C08": C08, "C09": C09, "C12": C12, "C13": C13, "C14": C14, "C16": C16, "C17": C17, "C18": C18, "C19": C19}
 
-MIR_PROPS = ["C01", "C02", "C05", "C06", "C07", "C08", "C12", "C13", "C14", "C16", "C17"]
+MIR_PROPS = ["C01", "C02", "C04", "C05", "C06", "C07", "C08", "C12", "C13", "C14", "C16", "C17"]
 
 _TODO = "not claimed yet: machinery for this property is still being built (see DESIGN.md §4 for the plan)"
 NOT_APPLICABLE = {
@@ -374,5 +400,5 @@ NOT_APPLICABLE = {
     "C15": "CHALLENGE -> AUTHENTICATE needs read_target_info (size idiom) and a 25-field emitter with three to_vec calls; neither is executable by the solver-based engines here",
     "C20": "thread interleavings, select(2) and OpenSSL record buffering are concurrency + FFI; Kani does not model them and no sequential kernel implies the property",
 }
-for _p in ["C04"]:
+for _p in []:
     NOT_APPLICABLE.setdefault(_p, _TODO)
